@@ -39,6 +39,7 @@ pub struct PeerState {
     pub wfail_logged: bool,
     pub pause_at: usize,   // when the reader has consumed this many bytes, nothing arrives for pause_ms of virtual time (once)
     pub pause_ms: u64,
+    pub end_kind: u8,      // how the connection ends behind the script: 0 end of file, 1.. an error of the operating system
     pub paused: bool,
     pub resume_at: Option<tokio::time::Instant>,
 }
@@ -79,6 +80,18 @@ impl AsyncRead for Peer {
         if n == 0 {
             if want > 0 {
                 s.events.push(ev("r_eof", "", "", 0));
+                // the far end does not always close orderly: a reset, an abort, a broken pipe, a time-out end the connection just the same
+                let kind = match s.end_kind {
+                    1 => Some(std::io::ErrorKind::ConnectionReset),
+                    2 => Some(std::io::ErrorKind::ConnectionAborted),
+                    3 => Some(std::io::ErrorKind::BrokenPipe),
+                    4 => Some(std::io::ErrorKind::TimedOut),
+                    5 => Some(std::io::ErrorKind::Other),
+                    _ => None,
+                };
+                if let Some(k) = kind {
+                    return Poll::Ready(Err(std::io::Error::new(k, "the connection ended")));
+                }
             }
             return Poll::Ready(Ok(()));
         }
@@ -177,6 +190,7 @@ pub fn make_peer(case: &Value) -> Peer {
         s.wfail = case.get("wfail").and_then(|c| c.as_u64()).unwrap_or(0) as usize;
         s.pause_at = case.get("pause_at").and_then(|c| c.as_u64()).unwrap_or(0) as usize;
         s.pause_ms = case.get("pause_ms").and_then(|c| c.as_u64()).unwrap_or(0);
+        s.end_kind = case.get("end_kind").and_then(|c| c.as_u64()).unwrap_or(0) as u8;
     }
     p
 }
